@@ -10,6 +10,7 @@ from concurrent.futures import ThreadPoolExecutor
 from .common import *   # noqa: F401,F403
 from . import instr_gen as ig
 
+LEAF = ['Leaf_chart', 'Leaf_fromfile', 'Leaf_dispatch', 'Leaf_tracks', 'Leaf_build']      # translated functions this property's model relies on (Tie/<name>.v)
 RULE = ("[cold start] fresh interpreters whose very first parses run on 8 threads at once (barrier, 1 us switch interval) on a chart with 300 (thorough: 1000) star-power phrases, "
         "every distinct result and a later sequential parse in the same process judged against the fresh sequential parse; " + "a corpus of 30-40 chart texts (thorough: 250): valid charts sharing and not sharing resolutions / sustain tuples (so the memo tables hit across charts), a chart with > 128 distinct "
         "sustain tuples (forces lru eviction), charts with many plain text events vs. charts with sections and lyrics, charts stating many optional [Song] fields vs. charts stating none, and "
@@ -183,7 +184,9 @@ def run(ctx, only=None):
     cold = []
     cold_only = [(c["text"], None if c.get("want") is None else [tuple(x) for x in c["want"]]) for c in (only or []) if c and c.get("mode") == "cold_start_threads"]
     if not only or cold_only:
-        items = cold_only[:2] if cold_only else [(big_chart(rng, 300 if quick else 1000), None), texts[-1]]
+        # (texts that log warnings are left out: handlers are process-wide, so under threads a capture also sees other threads' records)
+        small = (chart_text(res=192, sync=["0 = TS 4", "0 = B 120000", "384 = B 87500"], events=['0 = E "section a"'], tracks=[("ExpertSingle", ["0 = N 0 0", "0 = S 2 100", "96 = N 1 48"])]), None)
+        items = cold_only[:2] if cold_only else [(big_chart(rng, 300 if quick else 1000), None), small]
         fr2 = fresh(items)
         for k, r in enumerate(cold_concurrent(items, 14 if cold_only or not quick else 4)):
             for j, (text, want) in enumerate(items):
